@@ -212,7 +212,7 @@ Proof.
   assert (Hrest : forall w', In w' (l1 ++ l2) -> In w' (g_writes gt) /\ w_h w' <> hid).
   { intros w' Hw'. split.
     - rewrite Hws. apply in_app_or in Hw'. apply in_or_app. destruct Hw'; [left | right; right]; assumption.
-    - intros E. apply Hnotin. rewrite <- E. apply in_map. exact Hw'. }
+    - intros E. apply Hnotin. rewrite <- E. apply (List.in_map w_h). exact Hw'. }
   assert (Hf : forall x, h_dig (hd s' x) = h_dig (hd s x) /\ h_use (hd s' x) = h_use (hd s x) /\
                          h_cv (hd s' x) = h_cv (hd s x) /\ h_msg (hd s' x) = h_msg (hd s x) /\
                          (x <> hid -> hd s' x = hd s x)).
@@ -264,7 +264,7 @@ Proof.
       destruct (Nat.eqb_spec g0 g) as [Eg|Eg].
       * subst g0. rewrite Hg in G1. inversion G1; subst gt0. exists gt', w0. split; [reflexivity|]. split; [|exact G3].
         rewrite Hws'. rewrite Hws in G2. apply in_app_or in G2. apply in_or_app.
-        destruct G2 as [G2 | [G2 | G2]]; [left; exact G2 | subst w0; contradiction | right; exact G2].
+        destruct G2 as [G2 | [G2 | G2]]; [left; exact G2 | exfalso; apply H; rewrite <- G3, <- G2; reflexivity | right; exact G2].
       * exists gt0, w0. repeat split; assumption.
     + intros d H. rewrite Hmap in H. rewrite Hback, Hlat.
       destruct (N.eqb_spec d (w_dig w)) as [E|E]; [|rewrite andb_false_r; apply (c_absent s C d H)].
@@ -274,13 +274,536 @@ Proof.
       destruct (Nat.eq_dec x hid) as [->|Hne].
       * destruct (Hf hid) as (_ & _ & Ecv & Em & _). rewrite Hwv, Ecv, Em. split; [exact P1|].
         destruct ok; cbn [andb].
-        -- intros Ev. rewrite <- Ed, W2, N.eqb_refl. rewrite (W5 Ev). apply P1. lia.
+        -- intros Ev. rewrite W2, Ed, N.eqb_refl. rewrite (W5 Ev). apply P1. lia.
         -- intros Ev. lia.
       * destruct (Hf x) as (_ & _ & _ & _ & E). rewrite E by assumption.
         destruct (N.eqb_spec d (w_dig w)) as [E2|E2]; [|rewrite andb_false_r; split; assumption].
-        exfalso. apply Hne. subst d. rewrite W2 in H. unfold in_map in Hin. congruence.
+        exfalso. apply Hne. rewrite E2, W2 in H. unfold in_map in Hin. congruence.
   - intros x Hex Hx. assert (Hne : x <> hid) by congruence. apply Hm in Hx.
     destruct (Hf x) as (_ & _ & _ & _ & E). unfold active. rewrite Hq, E by assumption.
     apply (MA x); [discriminate | exact Hx].
   - apply Hm. exact Hin.
+Qed.
+
+Lemma step_put_state : forall g d m ok s gt w rest,
+  s_gets s g = Some gt -> take_write d m (g_writes gt) = Some (w, rest) ->
+  fst (step_put repaired g d m ok s) =
+  roq (w_h w) (put_upd g ok w (mkG (g_dig gt) (g_existing gt) (g_read gt) (g_snap gt) rest (g_failed gt || negb ok)) s).
+Proof.
+  intros g d m ok s gt w rest Hg Ht. unfold step_put. rewrite Hg, Ht. cbn [fst]. fold roq.
+  match goal with |- set_gets (roq _ ?x) _ = _ => set (s2 := x) end.
+  destruct (roq_frame (w_h w) s2) as (_ & _ & Fg & _). rewrite Fg. rewrite <- roq_set_gets. f_equal.
+  unfold put_upd, s2. destruct ok; reflexivity.
+Qed.
+
+Lemma step_put_inv : forall g d m ok s, Inv s -> Inv (fst (step_put repaired g d m ok s)).
+Proof.
+  intros g d m ok s I.
+  destruct (s_gets s g) as [gt|] eqn:Hg; [|unfold step_put; rewrite Hg; exact I].
+  destruct (take_write d m (g_writes gt)) as [[w rest]|] eqn:Ht; [|unfold step_put; rewrite Hg, Ht; exact I].
+  rewrite (step_put_state g d m ok s gt w rest Hg Ht).
+  set (gt' := mkG _ _ _ _ _ _). destruct I as (C & MA & K).
+  destruct (take_write_spec _ _ _ _ _ Ht) as (l1 & l2 & E1 & E2).
+  destruct (put_upd_core g ok w gt gt' l1 l2 s C MA Hg E1 E2) as (C1 & MA1 & Hin1).
+  destruct (roq_core (w_h w) _ C1 MA1 Hin1) as (C2 & MA2).
+  split; [exact C2|]. split; [exact MA2|].
+  destruct (roq_frame (w_h w) (put_upd g ok w gt' s)) as (Fh & _ & Fg & Fr & _ & _ & Fn).
+  assert (Egets : s_gets (roq (w_h w) (put_upd g ok w gt' s)) = updn (s_gets s) g (Some gt')).
+  { rewrite Fg. unfold put_upd. destruct ok; reflexivity. }
+  assert (Erefs : s_refs (roq (w_h w) (put_upd g ok w gt' s)) = s_refs s).
+  { rewrite Fr. unfold put_upd. destruct ok; reflexivity. }
+  assert (Enext : s_nextg (roq (w_h w) (put_upd g ok w gt' s)) = s_nextg s).
+  { rewrite Fn. unfold put_upd. destruct ok; reflexivity. }
+  assert (Euse : forall x, h_use (hd (roq (w_h w) (put_upd g ok w gt' s)) x) = h_use (hd s x)).
+  { intros x. rewrite Fh. unfold put_upd, upd_handle. destruct ok; cbn; unfold updn;
+      destruct (Nat.eqb_spec x (w_h w)) as [E|E]; try subst x; reflexivity. }
+  pose proof (get_bound s g gt K Hg) as Hglt.
+  constructor.
+  - intros g0 Hge. rewrite Enext in Hge. rewrite Egets, Erefs. destruct (k_bound s K g0 Hge) as (B1 & B2).
+    split; [|exact B2]. rewrite updn_other by lia. exact B1.
+  - intros g0 H. rewrite Egets in H. rewrite Erefs. unfold updn in H. destruct (Nat.eqb_spec g0 g) as [E|E].
+    + subst g0. apply (k_excl s K g). congruence.
+    + apply (k_excl s K g0 H).
+  - intros x. rewrite Euse, (k_use s K x). unfold holders. rewrite Enext. symmetry. apply count_ext.
+    intros g0 _. unfold holds. rewrite Egets, Erefs. unfold updn.
+    destruct (Nat.eqb_spec g0 g) as [E|E]; [subst g0; rewrite Hg; reflexivity | reflexivity].
+Qed.
+
+(* ---- EGet ---------------------------------------------------------------------------------- *)
+
+Lemma NoDup_app_parts : forall (l1 l2 : list nat), NoDup (l1 ++ l2) ->
+  NoDup l1 /\ NoDup l2 /\ forall x, In x l1 -> ~ In x l2.
+Proof.
+  intros l1 l2. induction l1 as [|a t IH]; cbn; intros H.
+  - split; [constructor|]. split; [exact H | intros x []].
+  - inversion H as [|? ? Ha Ht]; subst. destruct (IH Ht) as (I1 & I2 & I3).
+    split; [constructor; [intros Hin; apply Ha; apply in_or_app; left; exact Hin | exact I1]|].
+    split; [exact I2|]. intros x [-> | Hx]; [intros Hin; apply Ha; apply in_or_app; right; exact Hin | apply I3; exact Hx].
+Qed.
+
+Lemma deq_core : forall g n s hs q ws gt ng,
+  Core s -> map_active s ->
+  s_gets s g = None -> (forall x, h_writing (hd s x) <> Some g) ->
+  dequeue g n (s_handles s) (s_queue s) = (hs, q, ws) -> g_writes gt = ws ->
+  let s' := set_nextg (set_gets (set_queue (set_handles s hs) q) (updn (s_gets s) g (Some gt))) ng in
+  Core s' /\ map_active s' /\ (forall x, h_use (hd s' x) = h_use (hd s x)).
+Proof.
+  intros g n s hs q ws gt ng C MA Hgn Hfresh Hd Hgt s'.
+  destruct (dequeue_spec n g _ _ _ _ _ Hd (c_queue_nodup s C)) as (D1 & D2 & D3).
+  set (P := map w_h ws) in *.
+  pose proof (c_queue_nodup s C) as Hnd. rewrite D1 in Hnd.
+  destruct (NoDup_app_parts _ _ Hnd) as (Nq & Nr & Ndisj).
+  assert (NP : NoDup P) by (rewrite <- (rev_involutive P); apply NoDup_rev; exact Nr).
+  assert (HPq : forall x, In x P -> In x (s_queue s) /\ ~ In x q).
+  { intros x Hx. split.
+    - rewrite D1. apply in_or_app. right. apply in_rev. rewrite rev_involutive. exact Hx.
+    - intros Hq. apply (Ndisj x Hq). apply in_rev. rewrite rev_involutive. exact Hx. }
+  assert (Hqs : forall x, In x q -> In x (s_queue s)) by (intros x Hx; rewrite D1; apply in_or_app; left; exact Hx).
+  assert (Hsplit : forall x, In x (s_queue s) -> In x q \/ In x P).
+  { intros x Hx. rewrite D1 in Hx. apply in_app_or in Hx. destruct Hx as [Hx | Hx]; [left; exact Hx|].
+    right. apply in_rev in Hx. exact Hx. }
+  assert (Hhd : forall x, hd s' x = if inb x P then set_writing (hd s x) (Some g) else hd s x) by (intros x; apply D2).
+  assert (Hf : forall x, h_dig (hd s' x) = h_dig (hd s x) /\ h_use (hd s' x) = h_use (hd s x) /\
+                         h_wv (hd s' x) = h_wv (hd s x) /\ h_cv (hd s' x) = h_cv (hd s x) /\
+                         h_msg (hd s' x) = h_msg (hd s x) /\
+                         h_writing (hd s' x) = (if inb x P then Some g else h_writing (hd s x))).
+  { intros x. rewrite Hhd. destruct (inb x P); cbn; repeat split; reflexivity. }
+  assert (Hm : forall x, in_map s' x <-> in_map s x).
+  { intros x. unfold in_map. destruct (Hf x) as (Ed & _). rewrite Ed. reflexivity. }
+  assert (Hgets : forall g0, s_gets s' g0 = if Nat.eqb g0 g then Some gt else s_gets s g0) by reflexivity.
+  split; [|split].
+  - constructor.
+    + intros d x H. destruct (Hf x) as (Ed & _). rewrite Ed. apply (c_map s C d x H).
+    + intros x Hx. change (s_nexth s') with (s_nexth s) in Hx. rewrite Hhd.
+      destruct (inb x P) eqn:E; [|apply (c_fresh s C x Hx)].
+      apply inb_In in E. destruct (HPq x E) as (Hq & _).
+      assert (in_map s x) as Hi by (apply (c_active_in_map s C); right; left; exact Hq).
+      destruct (c_map s C _ _ Hi). lia.
+    + intros x Ha. apply Hm. apply (c_active_in_map s C). destruct (Hf x) as (_ & Eu & _ & _ & _ & Ew).
+      unfold active in *. rewrite Eu, Ew in Ha. destruct Ha as [H | [H | H]].
+      * left; exact H.
+      * right; left. apply Hqs. exact H.
+      * destruct (inb x P) eqn:E; [right; left; apply inb_In in E; apply (HPq x E) | right; right; exact H].
+    + exact Nq.
+    + intros x Hx. change (s_queue s') with q in Hx.
+      assert (inb x P = false) as E by (apply inb_false; intros HP; apply (HPq x HP); exact Hx).
+      destruct (Hf x) as (_ & Eu & Ewv & Ecv & _ & Ew). rewrite Eu, Ewv, Ecv, Ew, E. apply (c_queue s C x (Hqs x Hx)).
+    + intros x. destruct (Hf x) as (_ & _ & Ewv & Ecv & _). rewrite Ewv, Ecv. apply (c_ver s C).
+    + intros g0 gt0 w0 H0 Hw0. rewrite Hgets in H0.
+      destruct (Hf (w_h w0)) as (Ed & _ & Ewv & Ecv & Em & Ew). rewrite Ed, Ewv, Ecv, Em, Ew.
+      destruct (Nat.eqb_spec g0 g) as [E|E].
+      * subst g0. inversion H0; subst gt0. rewrite Hgt in Hw0.
+        assert (In (w_h w0) P) as HP by (apply (List.in_map w_h); exact Hw0).
+        replace (inb (w_h w0) P) with true by (symmetry; apply inb_In; exact HP).
+        destruct (D3 w0 Hw0) as (A1 & A2 & A3). destruct (c_queue s C _ (proj1 (HPq _ HP))) as (_ & _ & Q3).
+        rewrite A1, A2, A3. split; [reflexivity|]. split; [reflexivity|]. split; [exact Q3|]. split; [lia | reflexivity].
+      * destruct (c_write s C g0 gt0 w0 H0 Hw0) as (W1 & W2 & W3 & W4 & W5).
+        assert (inb (w_h w0) P = false) as EP.
+        { apply inb_false. intros HP. destruct (c_queue s C _ (proj1 (HPq _ HP))) as (_ & Q2 & _). congruence. }
+        rewrite EP. repeat split; assumption.
+    + intros g0 gt0 H0. rewrite Hgets in H0. destruct (Nat.eqb_spec g0 g) as [E|E].
+      * inversion H0; subst gt0. rewrite Hgt. exact NP.
+      * apply (c_write_nodup s C g0 gt0 H0).
+    + intros x g0 Hx. destruct (Hf x) as (_ & _ & _ & _ & _ & Ew). rewrite Ew in Hx.
+      destruct (inb x P) eqn:E.
+      * inversion Hx; subst g0. apply inb_In in E. unfold P in E. apply in_map_iff in E. destruct E as (w0 & E1 & E2).
+        exists gt, w0. rewrite Hgets, Nat.eqb_refl, Hgt. repeat split; assumption.
+      * destruct (c_writing s C x g0 Hx) as (gt0 & w0 & G1 & G2 & G3).
+        assert (g0 <> g) by (intros ->; congruence).
+        exists gt0, w0. rewrite Hgets. apply Nat.eqb_neq in H. rewrite H. repeat split; assumption.
+    + apply (c_absent s C).
+    + intros d x H. destruct (Hf x) as (_ & _ & Ewv & Ecv & Em & _). rewrite Ewv, Ecv, Em. apply (c_present s C d x H).
+  - intros x _ Hx. apply Hm in Hx. destruct (Hf x) as (_ & Eu & _ & _ & _ & Ew). unfold active. rewrite Eu, Ew.
+    change (s_queue s') with q.
+    destruct (MA x) as [H | [H | H]]; [discriminate | exact Hx | left; exact H | | ].
+    + destruct (Hsplit x H) as [Hq | HP]; [right; left; exact Hq|].
+      right. right. apply inb_In in HP. rewrite HP. discriminate.
+    + right. right. destruct (inb x P); [discriminate | exact H].
+  - intros x. apply (Hf x).
+Qed.
+
+Lemma step_get_inv : forall d s, Inv s -> Inv (fst (step_get repaired d s)).
+Proof.
+  intros d s (C & MA & K). unfold step_get.
+  set (g := s_nextg s). set (ex := s_map s d).
+  set (s1 := match ex with Some hid => increase_use hid s | None => s end).
+  destruct (k_bound s K g (Nat.le_refl _)) as (Hgn & Hrn).
+  assert (H1 : Core s1 /\ map_active s1 /\ s_gets s1 = s_gets s /\ s_refs s1 = s_refs s /\ s_nextg s1 = s_nextg s /\
+               forall x, h_use (hd s1 x) = match ex with
+                                           | Some hid => if Nat.eqb x hid then S (h_use (hd s x)) else h_use (hd s x)
+                                           | None => h_use (hd s x) end).
+  { unfold s1. destruct ex as [hid|] eqn:Eex.
+    - assert (in_map s hid) as Hin by (apply (map_in_map s d hid C); exact Eex).
+      destruct (increase_use_core hid s None C MA Hin) as (A & B).
+      destruct (increase_use_frame hid s) as (_ & _ & Fg & Fr & _ & _ & Fn).
+      split; [exact A|]. split; [exact B|]. do 3 (split; [assumption|]).
+      intros x. apply (increase_use_fields hid s x).
+    - split; [exact C|]. split; [exact MA|]. do 3 (split; [reflexivity|]). reflexivity. }
+  destruct H1 as (C1 & MA1 & Eg1 & Er1 & En1 & Eu1).
+  destruct (dequeue g writes_per_read (s_handles s1) (s_queue s1)) as [[hs q] ws] eqn:Ed. cbn [fst].
+  set (gt := mkG d ex _ _ ws false).
+  assert (Hfresh : forall x, h_writing (hd s1 x) <> Some g).
+  { intros x Hx. destruct (c_writing s1 C1 x g Hx) as (gt0 & _ & G & _). rewrite Eg1 in G. congruence. }
+  assert (Hgn1 : s_gets s1 g = None) by (rewrite Eg1; exact Hgn).
+  destruct (deq_core g writes_per_read s1 hs q ws gt (S g) C1 MA1 Hgn1 Hfresh Ed eq_refl) as (C2 & MA2 & Eu2).
+  match goal with |- Inv ?x => set (s' := x) in * end.
+  split; [exact C2|]. split; [exact MA2|].
+  assert (Egets : s_gets s' = updn (s_gets s) g (Some gt)) by (unfold s'; cbn; rewrite Eg1; reflexivity).
+  assert (Erefs : s_refs s' = s_refs s) by (unfold s'; cbn; exact Er1).
+  constructor.
+  - intros g0 Hge. change (s_nextg s') with (S g) in Hge. rewrite Egets, Erefs.
+    destruct (k_bound s K g0) as (B1 & B2); [unfold g in Hge; lia|]. split; [|exact B2].
+    rewrite updn_other by lia. exact B1.
+  - intros g0 H. rewrite Egets in H. rewrite Erefs. unfold updn in H. destruct (Nat.eqb_spec g0 g) as [E|E].
+    + subst g0. exact Hrn.
+    + apply (k_excl s K g0 H).
+  - intros x. rewrite Eu2, Eu1. unfold holders. change (s_nextg s') with (S g). rewrite count_S.
+    assert (Hlow : count (holds s' x) g = count (holds s x) g).
+    { apply count_ext. intros g0 Hlt. unfold holds. rewrite Egets, Erefs. rewrite updn_other by lia. reflexivity. }
+    rewrite Hlow. fold g. change (count (holds s x) g) with (holders s x). rewrite <- (k_use s K x).
+    unfold holds. rewrite Egets, Erefs, updn_same, Hrn. cbn [orb g_existing gt].
+    destruct ex as [hid|]; [|lia]. rewrite (Nat.eqb_sym hid x). destruct (Nat.eqb x hid); lia.
+Qed.
+
+(* ---- EEnd ---------------------------------------------------------------------------------- *)
+
+Definition holds_opt (o : option nat) (x : nat) : bool :=
+  match o with Some y => Nat.eqb y x | None => false end.
+
+Lemma end_cnt : forall s s' g gt r,
+  Cnt s -> s_gets s g = Some gt ->
+  s_nextg s' = s_nextg s -> (forall g0, s_gets s' g0 = updn (s_gets s) g None g0) ->
+  (forall g0, s_refs s' g0 = updn (s_refs s) g r g0) ->
+  (forall x, h_use (hd s' x) =
+     match holds_opt (g_existing gt) x, holds_opt r x with
+     | true, true | false, false => h_use (hd s x)
+     | false, true => S (h_use (hd s x))
+     | true, false => pred (h_use (hd s x))
+     end) ->
+  Cnt s'.
+Proof.
+  intros s s' g gt r K Hg En Eg Er Hu.
+  pose proof (get_bound s g gt K Hg) as Hglt.
+  assert (Hrn : s_refs s g = None) by (apply (k_excl s K); congruence).
+  constructor.
+  - intros g0 Hge. rewrite En in Hge. rewrite Eg, Er. destruct (k_bound s K g0 Hge) as (B1 & B2).
+    rewrite !updn_other by lia. split; assumption.
+  - intros g0 H. rewrite Eg in H. rewrite Er. unfold updn in *. destruct (Nat.eqb g0 g); [contradiction | apply (k_excl s K g0 H)].
+  - intros x. rewrite Hu. unfold holders. rewrite En.
+    assert (Hother : forall g0, g0 <> g -> holds s' x g0 = holds s x g0).
+    { intros g0 Hne. unfold holds. rewrite Eg, Er, !updn_other by exact Hne. reflexivity. }
+    assert (Hb : holds s x g = holds_opt (g_existing gt) x).
+    { unfold holds. rewrite Hrn, Hg. reflexivity. }
+    assert (Ha : holds s' x g = holds_opt r x).
+    { unfold holds. rewrite Eg, Er, !updn_same. unfold holds_opt. destruct r; [rewrite orb_false_r|]; reflexivity. }
+    rewrite (k_use s K x). unfold holders.
+    destruct (holds_opt (g_existing gt) x) eqn:Eb, (holds_opt r x) eqn:Ea.
+    + symmetry. apply count_ext. intros g0 _. destruct (Nat.eq_dec g0 g) as [->|Hne]; [congruence | apply Hother; exact Hne].
+    + pose proof (count_off (holds s x) (holds s' x) (s_nextg s) g Hglt Hb Ha Hother). lia.
+    + symmetry. apply (count_on (holds s x) (holds s' x) (s_nextg s) g Hglt Hb Ha Hother).
+    + symmetry. apply count_ext. intros g0 _. destruct (Nat.eq_dec g0 g) as [->|Hne]; [congruence | apply Hother; exact Hne].
+Qed.
+
+Lemma return_handle_eq : forall g hid s, (hid < s_nexth s)%nat -> core_eq s (fst (return_handle g hid s)).
+Proof.
+  intros g hid s Hlt. set (s' := fst (return_handle g hid s)).
+  assert (Hhd : forall x, hd s' x = if Nat.eqb x hid
+                                    then set_first (hd s hid) (Some match h_first (hd s hid) with Some f => f | None => g end)
+                                    else hd s x) by reflexivity.
+  unfold core_eq. do 5 (split; [reflexivity|]). split; [|split].
+  - intros x. rewrite Hhd. destruct (Nat.eqb_spec x hid) as [E|E]; [subst x|]; cbn; repeat split; reflexivity.
+  - intros x Hx. rewrite Hhd. destruct (Nat.eqb_spec x hid) as [E|E]; [lia | reflexivity].
+  - intros g0. reflexivity.
+Qed.
+
+Definition create (d : N) (snap : list N) (s : state) : state :=
+  let hid := s_nexth s in
+  let s1 := set_nexth (set_handles s (updn (s_handles s) hid (mkH d 1 0 0 None snap None))) (S hid) in
+  set_map s1 (updN (s_map s1) d (Some hid)).
+
+Lemma create_core : forall d snap s,
+  Core s -> map_active s -> s_map s d = None ->
+  Core (create d snap s) /\ map_active (create d snap s) /\ in_map (create d snap s) (s_nexth s).
+Proof.
+  intros d snap s C MA Hnone. set (n := s_nexth s). set (s' := create d snap s).
+  assert (Hn : hd s' n = mkH d 1 0 0 None snap None) by (unfold s', create; cbn; apply updn_same).
+  assert (Ho : forall x, x <> n -> hd s' x = hd s x) by (intros x Hx; unfold s', create; cbn; apply updn_other; exact Hx).
+  assert (Hmap : forall d0, s_map s' d0 = if d0 =? d then Some n else s_map s d0) by reflexivity.
+  assert (Hlt : forall x, in_map s x -> x <> n) by (intros x Hx; destruct (c_map s C _ _ Hx); unfold n; lia).
+  assert (Hm : forall x, x <> n -> (in_map s' x <-> in_map s x)).
+  { intros x Hx. unfold in_map. rewrite Hmap, (Ho x Hx).
+    destruct (N.eqb_spec (h_dig (hd s x)) d) as [E|E]; [|reflexivity].
+    rewrite E, Hnone. split; [intros H; inversion H; congruence | discriminate]. }
+  assert (Hinn : in_map s' n) by (unfold in_map; rewrite Hn, Hmap; cbn; rewrite N.eqb_refl; reflexivity).
+  assert (Hact : forall x, x <> n -> (active s' x <-> active s x)).
+  { intros x Hx. unfold active. rewrite (Ho x Hx). reflexivity. }
+  assert (Hactn : forall x, active s x -> x <> n) by (intros x Hx; apply Hlt; apply (c_active_in_map s C); exact Hx).
+  split; [|split; [|exact Hinn]].
+  - constructor.
+    + intros d0 x H. rewrite Hmap in H. change (s_nexth s') with (S n).
+      destruct (N.eqb_spec d0 d) as [E|E].
+      * inversion H; subst. rewrite Hn. cbn. split; [reflexivity | lia].
+      * destruct (c_map s C d0 x H) as (A & B). rewrite Ho by (fold n in B; lia). split; [exact A | fold n in B; lia].
+    + intros x Hx. change (s_nexth s') with (S n) in Hx. rewrite Ho by lia. apply (c_fresh s C). fold n. lia.
+    + intros x Ha. destruct (Nat.eq_dec x n) as [->|Hne]; [exact Hinn|].
+      apply (Hm x Hne). apply (c_active_in_map s C). apply (Hact x Hne). exact Ha.
+    + apply (c_queue_nodup s C).
+    + intros x Hx. change (s_queue s') with (s_queue s) in Hx.
+      rewrite Ho by (apply Hactn; right; left; exact Hx). apply (c_queue s C x Hx).
+    + intros x. destruct (Nat.eq_dec x n) as [->|Hne]; [rewrite Hn; cbn; lia | rewrite Ho by exact Hne; apply (c_ver s C)].
+    + intros g gt w Hg Hw. change (s_gets s' g) with (s_gets s g) in Hg.
+      destruct (c_write s C g gt w Hg Hw) as (W1 & W).
+      rewrite Ho; [split; assumption|]. apply Hactn. right. right. rewrite W1. discriminate.
+    + apply (c_write_nodup s C).
+    + intros x g Hx. destruct (Nat.eq_dec x n) as [->|Hne]; [rewrite Hn in Hx; discriminate|].
+      rewrite Ho in Hx by exact Hne. apply (c_writing s C x g Hx).
+    + intros d0 H. rewrite Hmap in H. destruct (d0 =? d); [discriminate | apply (c_absent s C d0 H)].
+    + intros d0 x H. rewrite Hmap in H. change (s_backing s') with (s_backing s). change (s_latest s') with (s_latest s).
+      destruct (N.eqb_spec d0 d) as [E|E].
+      * inversion H; subst. rewrite Hn. cbn. split; [intros X; contradiction | intros _; apply (c_absent s C d Hnone)].
+      * destruct (c_map s C d0 x H) as (_ & B). rewrite Ho by (fold n in B; lia). apply (c_present s C d0 x H).
+  - intros x _ Hx. destruct (Nat.eq_dec x n) as [->|Hne].
+    + left. rewrite Hn. cbn. lia.
+    + apply (Hact x Hne). apply (MA x); [discriminate | apply (Hm x Hne); exact Hx].
+Qed.
+
+Definition end_body (g : nat) (gt : get) (s : state) : state * out :=
+  let s0 := set_gets s (updn (s_gets s) g None) in
+  match g_existing gt with
+  | Some hid =>
+    if g_failed gt then (decrease_use repaired hid s0, OEnd None) else return_handle g hid s0
+  | None =>
+    if g_failed gt then (s0, OEnd None)
+    else match s_map s0 (g_dig gt) with
+         | Some hid' => return_handle g hid' (increase_use hid' s0)
+         | None => return_handle g (s_nexth s0) (create (g_dig gt) (g_snap gt) s0)
+         end
+  end.
+
+Lemma end_body_inv : forall g gt s,
+  Inv s -> s_gets s g = Some gt -> g_writes gt = [] -> Inv (fst (end_body g gt s)).
+Proof.
+  intros g gt s I Hg Hws. pose proof I as (C & MA & K). unfold end_body.
+  set (s0 := set_gets s (updn (s_gets s) g None)).
+  assert (E0 : core_eq s s0).
+  { unfold core_eq. do 5 (split; [reflexivity|]). split; [intros x; repeat split; reflexivity|]. split; [reflexivity|].
+    intros g0. unfold writes_of, s0. cbn. unfold updn. destruct (Nat.eqb_spec g0 g) as [E|E]; [subst g0; rewrite Hg, Hws|]; reflexivity. }
+  pose proof (core_eq_core s s0 E0 C) as C0. pose proof (core_eq_map_active s s0 None E0 MA) as MA0.
+  destruct (g_existing gt) as [hid|] eqn:Eex.
+  - destruct (get_existing_in_map s g gt hid I Hg Eex) as (Hin & Hu).
+    assert (Hin0 : in_map s0 hid) by (apply (core_eq_in_map s s0 hid E0); exact Hin).
+    destruct (g_failed gt); cbn [fst].
+    + destruct (decrease_use_core hid s0 C0 MA0 Hin0) as (C1 & MA1). split; [exact C1|]. split; [exact MA1|].
+      unfold decrease_use in *. fold roq in *. fold (dec_only hid s0) in *.
+      destruct (roq_frame hid (dec_only hid s0)) as (Fh & _ & Fg & Fr & _ & _ & Fn).
+      apply (end_cnt s _ g gt None K Hg).
+      * rewrite Fn. reflexivity.
+      * intros g0. rewrite Fg. reflexivity.
+      * intros g0. rewrite Fr. cbn. unfold updn. destruct (Nat.eqb_spec g0 g) as [E|E]; [subst g0; apply (k_excl s K); congruence | reflexivity].
+      * intros x. rewrite Fh, Eex. unfold dec_only, upd_handle. cbn. unfold updn.
+        rewrite (Nat.eqb_sym hid x). destruct (Nat.eqb_spec x hid) as [E|E]; [subst x|]; reflexivity.
+    + assert (Hlt : (hid < s_nexth s0)%nat) by (destruct (c_map s0 C0 _ _ Hin0); assumption).
+      pose proof (return_handle_eq g hid s0 Hlt) as E1.
+      split; [apply (core_eq_core s0 _ E1 C0)|]. split; [apply (core_eq_map_active s0 _ None E1 MA0)|].
+      apply (end_cnt s _ g gt (Some hid) K Hg).
+      * reflexivity.
+      * intros g0. reflexivity.
+      * intros g0. reflexivity.
+      * intros x. rewrite Eex. cbn. unfold updn. destruct (Nat.eqb_spec x hid) as [E|E].
+        -- subst x. rewrite Nat.eqb_refl. reflexivity.
+        -- apply Nat.eqb_neq in E. rewrite (Nat.eqb_sym hid x), E. reflexivity.
+  - destruct (g_failed gt); cbn [fst].
+    + split; [exact C0|]. split; [exact MA0|].
+      apply (end_cnt s s0 g gt None K Hg).
+      * reflexivity.
+      * intros g0. reflexivity.
+      * intros g0. cbn. unfold updn. destruct (Nat.eqb_spec g0 g) as [E|E]; [subst g0; apply (k_excl s K); congruence | reflexivity].
+      * intros x. rewrite Eex. reflexivity.
+    + destruct (s_map s0 (g_dig gt)) as [hid'|] eqn:Em.
+      * assert (Hin0 : in_map s0 hid') by (apply (map_in_map s0 _ hid' C0 Em)).
+        destruct (increase_use_core hid' s0 None C0 MA0 Hin0) as (C1 & MA1).
+        destruct (increase_use_frame hid' s0) as (_ & _ & Fg & Fr & _ & Fnh & Fn).
+        assert (Hlt : (hid' < s_nexth (increase_use hid' s0))%nat) by (rewrite Fnh; destruct (c_map s0 C0 _ _ Hin0); assumption).
+        pose proof (return_handle_eq g hid' _ Hlt) as E1.
+        split; [apply (core_eq_core _ _ E1 C1)|]. split; [apply (core_eq_map_active _ _ None E1 MA1)|].
+        apply (end_cnt s _ g gt (Some hid') K Hg).
+        -- cbn. rewrite Fn. reflexivity.
+        -- intros g0. cbn. rewrite Fg. reflexivity.
+        -- intros g0. cbn. rewrite Fr. reflexivity.
+        -- intros x. rewrite Eex. cbn [holds_opt].
+           assert (h_use (hd (fst (return_handle g hid' (increase_use hid' s0))) x) = h_use (hd (increase_use hid' s0) x)) as Eu.
+           { destruct E1 as (_ & _ & _ & _ & _ & Eh & _). apply (Eh x). }
+           rewrite Eu. destruct (increase_use_fields hid' s0 x) as (_ & _ & _ & _ & _ & Eu2). rewrite Eu2.
+           rewrite (Nat.eqb_sym hid' x). destruct (Nat.eqb x hid'); reflexivity.
+      * destruct (create_core (g_dig gt) (g_snap gt) s0 C0 MA0 Em) as (C1 & MA1 & Hin1).
+        assert (Hlt : (s_nexth s0 < s_nexth (create (g_dig gt) (g_snap gt) s0))%nat) by (cbn; lia).
+        pose proof (return_handle_eq g (s_nexth s0) _ Hlt) as E1.
+        split; [apply (core_eq_core _ _ E1 C1)|]. split; [apply (core_eq_map_active _ _ None E1 MA1)|].
+        apply (end_cnt s _ g gt (Some (s_nexth s0)) K Hg).
+        -- reflexivity.
+        -- intros g0. reflexivity.
+        -- intros g0. reflexivity.
+        -- intros x. rewrite Eex. cbn [holds_opt].
+           assert (h_use (hd (fst (return_handle g (s_nexth s0) (create (g_dig gt) (g_snap gt) s0))) x)
+                   = h_use (hd (create (g_dig gt) (g_snap gt) s0) x)) as Eu.
+           { destruct E1 as (_ & _ & _ & _ & _ & Eh & _). apply (Eh x). }
+           rewrite Eu. unfold create. cbn. unfold updn. rewrite (Nat.eqb_sym (s_nexth s) x).
+           destruct (Nat.eqb_spec x (s_nexth s)) as [E|E]; [|reflexivity].
+           subst x. cbn. rewrite (c_fresh s C (s_nexth s) (Nat.le_refl _)). reflexivity.
+Qed.
+
+Lemma step_end_inv : forall g s, Inv s -> Inv (fst (step_end repaired g s)).
+Proof.
+  intros g s I. unfold step_end.
+  destruct (s_gets s g) as [gt|] eqn:Hg; [|exact I].
+  destruct (g_read gt); destruct (g_writes gt) eqn:Hws; try exact I;
+    apply (end_body_inv g gt s I Hg Hws).
+Qed.
+
+(* ---- all events ------------------------------------------------------------------------------ *)
+
+Lemma step_inv : forall s e, Inv s -> Inv (fst (step s e)).
+Proof.
+  intros s e I. unfold step, step_v. destruct e.
+  - apply step_get_inv; exact I.
+  - apply step_read_inv; exact I.
+  - apply step_put_inv; exact I.
+  - apply step_end_inv; exact I.
+  - apply step_rel_inv; exact I.
+Qed.
+
+Lemma init_inv : Inv init.
+Proof.
+  split; [|split].
+  - constructor; cbn.
+    + intros; discriminate.
+    + intros; reflexivity.
+    + intros hid [H | [H | H]]; cbn in H; [lia | contradiction | contradiction].
+    + constructor.
+    + intros hid [].
+    + intros; lia.
+    + intros; discriminate.
+    + intros; discriminate.
+    + intros; discriminate.
+    + intros; reflexivity.
+    + intros; discriminate.
+  - intros x _ H. unfold in_map in H. cbn in H. discriminate.
+  - constructor; cbn.
+    + intros; split; reflexivity.
+    + intros g H. contradiction.
+    + intros; reflexivity.
+Qed.
+
+Lemma run_inv : forall evs s, Inv s -> Inv (run s evs).
+Proof.
+  induction evs as [|e t IH]; intros s I; [exact I|]. cbn. apply IH. apply (step_inv s e I).
+Qed.
+
+(* ---- the properties ---------------------------------------------------------------------------- *)
+
+Lemma reachable_in_map : forall s hid, Inv s -> reachable s hid -> in_map s hid.
+Proof.
+  intros s hid I H. pose proof I as (C & _ & _). destruct H as [H | [H | [H | H]]].
+  - exact H.
+  - apply (c_active_in_map s C). right. left. exact H.
+  - destruct H as (w & (g & gt & Hg & Hw) & E). subst hid.
+    destruct (c_write s C g gt w Hg Hw) as (W1 & _). apply (c_active_in_map s C). right. right. rewrite W1. discriminate.
+  - destruct H as (g & Hr). apply (ref_in_map s g hid I Hr).
+Qed.
+
+Lemma one_handle_per_digest_l : forall evs h1 h2,
+  let s := run init evs in
+  reachable s h1 -> reachable s h2 -> h_dig (hd s h1) = h_dig (hd s h2) -> h1 = h2.
+Proof.
+  intros evs h1 h2 s R1 R2 E. pose proof (run_inv evs init init_inv) as I. fold s in I.
+  apply (in_map_inj s h1 h2); [apply reachable_in_map | apply reachable_in_map | exact E]; assumption.
+Qed.
+
+Lemma no_lost_update_l : forall evs,
+  let s := run init evs in
+  quiescent s -> forall d, s_backing s d = s_latest s d.
+Proof.
+  intros evs s (Q1 & Q2 & Q3) d. pose proof (run_inv evs init init_inv) as I. fold s in I.
+  destruct I as (C & MA & _).
+  destruct (s_map s d) as [hid|] eqn:Em; [|apply (c_absent s C d Em)].
+  exfalso. assert (Hin : in_map s hid) by (apply (map_in_map s d hid C Em)).
+  destruct (MA hid) as [H | [H | H]]; [discriminate | exact Hin | | |].
+  - rewrite (Q1 d hid Em) in H. lia.
+  - rewrite Q2 in H. destruct H.
+  - destruct (h_writing (hd s hid)) as [g|] eqn:Ew; [|contradiction].
+    destruct (c_writing s C hid g Ew) as (gt & w & Hg & Hw & _). apply (Q3 w). exists g, gt. split; assumption.
+Qed.
+
+(* a failed write leaves the handle registered, dirty, and either queued
+   again or still in use (its holder's Release will queue it) *)
+Lemma failed_write_requeued_l : forall evs g d m gt w rest,
+  let s := run init evs in
+  s_gets s g = Some gt -> take_write d m (g_writes gt) = Some (w, rest) ->
+  let s' := fst (step s (EPut g d m false)) in
+  in_map s' (w_h w) /\ h_wv (hd s' (w_h w)) < h_cv (hd s' (w_h w)) /\
+  (In (w_h w) (s_queue s') \/ (0 < h_use (hd s' (w_h w)))%nat).
+Proof.
+  intros evs g d m gt w rest s Hg Ht s'.
+  pose proof (run_inv evs init init_inv) as I. fold s in I.
+  pose proof (step_inv s (EPut g d m false) I) as I'. fold s' in I'.
+  destruct I as (C & MA & K).
+  destruct (take_write_spec _ _ _ _ _ Ht) as (l1 & l2 & E1 & E2).
+  assert (Hw : In w (g_writes gt)) by (rewrite E1; apply in_or_app; right; left; reflexivity).
+  destruct (c_write s C g gt w Hg Hw) as (W1 & W2 & W3 & W4 & W5).
+  unfold s', step, step_v. rewrite (step_put_state g d m false s gt w rest Hg Ht).
+  set (gt' := mkG _ _ _ _ _ _). set (p := put_upd g false w gt' s).
+  assert (Hp : h_wv (hd p (w_h w)) = h_wv (hd s (w_h w)) /\ h_cv (hd p (w_h w)) = h_cv (hd s (w_h w)) /\
+               h_writing (hd p (w_h w)) = None /\ h_use (hd p (w_h w)) = h_use (hd s (w_h w))).
+  { unfold p, put_upd, upd_handle. cbn. rewrite updn_same. cbn. repeat split; reflexivity. }
+  destruct Hp as (P1 & P2 & P3 & P4).
+  destruct (roq_frame (w_h w) p) as (Fh & _).
+  assert (Hlt : h_wv (hd (roq (w_h w) p) (w_h w)) < h_cv (hd (roq (w_h w) p) (w_h w))) by (rewrite Fh, P1, P2; lia).
+  assert (Hq : In (w_h w) (s_queue (roq (w_h w) p)) \/ (0 < h_use (hd (roq (w_h w) p) (w_h w)))%nat).
+  { rewrite Fh. unfold roq, remove_or_queue. cbn [v_guard repaired andb]. rewrite P3. cbn [is_some negb].
+    rewrite andb_true_r. destruct (Nat.eqb_spec (h_use (hd p (w_h w))) 0) as [E|E]; [|right; lia].
+    replace (h_wv (hd p (w_h w)) =? h_cv (hd p (w_h w))) with false by (symmetry; apply N.eqb_neq; lia).
+    destruct (inb (w_h w) (s_queue p)) eqn:Ei; [left; apply inb_In; exact Ei|].
+    left. cbn. apply in_or_app. right. left. reflexivity. }
+  split; [|split; assumption].
+  unfold s', step, step_v in I'. rewrite (step_put_state g d m false s gt w rest Hg Ht) in I'. fold gt' p in I'.
+  destruct I' as (C' & _). apply (c_active_in_map _ C'). destruct Hq as [Hq | Hq]; [right; left; exact Hq | left; exact Hq].
+Qed.
+
+(* what Get hands out: the handle now registered for the digest, whose
+   message is the latest released one unless the backing store is already
+   up to date (the latter case is the stale-read finding) *)
+Lemma step_end_out : forall g s f msg,
+  snd (step s (EEnd g)) = OEnd (Some (f, msg)) ->
+  exists hid, s_refs (fst (step s (EEnd g))) g = Some hid /\ msg = h_msg (hd (fst (step s (EEnd g))) hid).
+Proof.
+  intros g s f msg. unfold step, step_v, step_end.
+  destruct (s_gets s g) as [gt|]; [|discriminate].
+  assert (R : forall hid s0, snd (return_handle g hid s0) = OEnd (Some (f, msg)) ->
+              exists hid0, s_refs (fst (return_handle g hid s0)) g = Some hid0 /\
+                           msg = h_msg (hd (fst (return_handle g hid s0)) hid0)).
+  { intros hid s0 H. unfold return_handle in *. cbn in *. inversion H; subst. exists hid.
+    rewrite !updn_same. cbn. split; reflexivity. }
+  destruct (g_read gt); destruct (g_writes gt); try discriminate;
+    (destruct (g_existing gt) as [hid|];
+     [destruct (g_failed gt); [discriminate | apply R]
+     | destruct (g_failed gt); [discriminate|];
+       destruct (s_map _ (g_dig gt)); apply R]).
+Qed.
+
+Lemma returned_handle_current_l : forall evs g f msg,
+  let s := run init evs in
+  snd (step s (EEnd g)) = OEnd (Some (f, msg)) ->
+  let s' := fst (step s (EEnd g)) in
+  exists hid, s_refs s' g = Some hid /\ in_map s' hid /\
+    (msg = s_latest s' (h_dig (hd s' hid)) \/ s_backing s' (h_dig (hd s' hid)) = s_latest s' (h_dig (hd s' hid))).
+Proof.
+  intros evs g f msg s Hout s'.
+  pose proof (run_inv evs init init_inv) as I. fold s in I.
+  pose proof (step_inv s (EEnd g) I) as I'. fold s' in I'.
+  destruct (step_end_out g s f msg Hout) as (hid & Hr & Hm). fold s' in Hr, Hm.
+  exists hid. split; [exact Hr|]. destruct (ref_in_map s' g hid I' Hr) as (Hin & _). split; [exact Hin|].
+  destruct I' as (C' & _). destruct (c_present s' C' _ _ Hin) as (P1 & P2).
+  destruct (N.eq_dec (h_cv (hd s' hid)) 0) as [E|E].
+  - right. apply P2. pose proof (c_ver s' C' hid). lia.
+  - left. rewrite Hm. apply P1. exact E.
 Qed.
